@@ -366,7 +366,7 @@ func c25Run(ctx *WorkCtx, idx int, race bool) {
 	}
 	blocks := 60
 	if race {
-		blocks = 25
+		blocks = 15
 	}
 	sc := StdScenario(idx, r, blocks)
 	sc.Spec.Orders = 4 + r.Intn(8)
@@ -390,7 +390,7 @@ func c25Run(ctx *WorkCtx, idx int, race bool) {
 	u := c25BuildUniverse(s)
 	nq := 8 + r.Intn(17)
 	if race {
-		nq = 6 + r.Intn(6)
+		nq = 4 + r.Intn(5)
 	}
 	for q := 0; q < nq; q++ {
 		load.wg.Add(1)
@@ -401,7 +401,7 @@ func c25Run(ctx *WorkCtx, idx int, race bool) {
 	hang := false
 	select {
 	case <-done:
-	case <-time.After(4 * time.Minute): // generous wall-clock watchdog: it only triggers taking the dump
+	case <-time.After(map[bool]time.Duration{false: 5 * time.Minute, true: 12 * time.Minute}[race]): // generous wall-clock watchdog: it only triggers taking the dump
 		hang = true
 	}
 	atomic.StoreInt32(&load.stop, 1)
@@ -480,7 +480,7 @@ func c25Death(total *WorkerResult, from, to, code int, tail, logf string) {
 
 func init() {
 	Register(&CheckDef{ID: "C25race", Level: "exploration", Quick: 14, Thorough: 280, Binary: "vchk.race", Batch: 1, WatchdogS: 1500,
-		Env:          []string{"GORACE=halt_on_error=0 log_path={TMP}/race"},
+		Env:          []string{"GORACE=halt_on_error=0 exitcode=0 log_path={TMP}/race"},
 		Run:          func(ctx *WorkCtx, idx int) { c25Run(ctx, idx, true) },
 		OnChildDeath: c25Death})
 	Register(&CheckDef{ID: "C25plain", Level: "exploration", Quick: 28, Thorough: 840, Batch: 2, WatchdogS: 1500,
